@@ -57,7 +57,7 @@ def _levels(rng):
     return a, b
 
 
-def gen(rng, kind, tier):
+def _gen(rng, kind, tier):
     for _ in range(50):
         c = _gen_once(rng, kind, tier)
         if c is not None:
@@ -187,6 +187,19 @@ def _gen_once(rng, kind, tier):
     raise ValueError(kind)
 
 
+PREVIEWS = [{"least_squares_params": {"max_nfev": 3}}, {"least_squares_params": {"ftol": 1e-1, "xtol": 1e-1}},
+            {"least_squares_params": {"method": "dogbox", "max_nfev": 5}}, {"tolerance": 1e-1}]
+
+
+def gen(rng, kind, tier):
+    case = _gen(rng, kind, tier)
+    if case is not None and rng.random() < 0.12:
+        # a quick, coarse preview of the same image with other fit options precedes the judged
+        # call (ordinary use; earlier calls must not influence later ones)
+        case["preview"] = PREVIEWS[int(rng.integers(len(PREVIEWS)))]
+    return case
+
+
 def run(case, rec):
     import droplets
     from pde import ScalarField
@@ -206,6 +219,11 @@ def run(case, rec):
     if case.get("num_processes"):
         kwargs["num_processes"] = case["num_processes"]
         rec.count("with_worker_processes")
+    if case.get("preview"):
+        pk = dict(kwargs)
+        pk["refine_args"] = {**dict(case["refine_args"]), **{k: (dict(v) if isinstance(v, dict) else v) for k, v in case["preview"].items()}}
+        common.monitored(rec, "preview:locate_droplets", droplets.locate_droplets, field, **pk)  # not judged
+        rec.count("preceded_by_a_coarse_preview_call")
     call = common.monitored(rec, "locate_droplets", droplets.locate_droplets, field, **kwargs)
     label = f"grid={geom.grid_label(spec)}{spec['shape']} thr={thr} levels={case['levels']} args={case['refine_args']}"
     if not rec.check(call.ok, "no-exception",
